@@ -186,7 +186,7 @@ def loop_unwindset(harness, slot, rules, crate_dir=KANI_CRATE, cwd=None, extra=(
             lid = line[5:-1]
             m = re.search(r" function (.*)$", lines[i + 1])
             pairs.append((lid, m.group(1) if m else ""))
-    us = []
+    us = ["%s:%d" % (sub[1:], n) for sub, n in rules if sub.startswith("=")]  # literal loop ids (CPROVER library)
     for lid, fnname in pairs:
         for sub, n in rules:
             if sub in fnname:
